@@ -11,6 +11,7 @@
   Spec: `CorrectPage` (ibid.).  Lemmas: `Hv/Data/BeaconLemmas.lean`.
 -/
 import Hv.Data.BeaconLemmas
+import Hv.Data.BeaconSingle
 
 namespace Hv.C07
 open Hv.Beacon
@@ -18,9 +19,19 @@ open Hv.Beacon
 /-- Full-strength statement: after every history, every index read that is answered is a
     correct page of the swamp's current contents.  (`answer = none` is the gateway's
     "Swamp does not exist" when no record is alive.) -/
-def Holds (cfg : Cfg) : Prop :=
+def HoldsSeq (cfg : Cfg) : Prop :=
   ∀ (h : List Op) (q : Query) (res : List Rec),
     answer cfg (run cfg h) q = some res → CorrectPage res q (run cfg h).store
+
+/-- …also for the second of two concurrent first readers of an index (the only concurrency in
+    this property: reads that race on the lazy build; writes stay sequential) -/
+def HoldsRace (cfg : Cfg) : Prop :=
+  ∀ (h : List Op) (q : Query) (res : List Rec),
+    answerSecond cfg (run cfg h) q = some res → CorrectPage res q (run cfg h).store
+
+/-- Full-strength statement: every answered read is a correct page, the second of two racing
+    first readers included. -/
+def Holds (cfg : Cfg) : Prop := HoldsSeq cfg ∧ HoldsRace cfg
 
 /-- the same, for reads of the index types in `S` only (the history is still arbitrary) -/
 def HoldsFor (cfg : Cfg) (S : Slot → Prop) : Prop :=
@@ -191,6 +202,86 @@ theorem slot_correct (cfg : Cfg) (hb : BsGood cfg) (s : Slot) (hg : SlotGood cfg
       · simp only [hl0, if_false]
   · simp [hempty] at ha
 
+/-- the read of an index whose ordered slice is what it should be (`ListOk`) is a correct page -/
+theorem correct_of_listOk (cfg : Cfg) (hb : BsGood cfg) (q : Query) (store : List Rec)
+    (hne : store.isEmpty = false) (hs : KeysNodup store) (l : List Rec) (hlok : ListOk q.slot q.asc store l) :
+    CorrectPage
+      (getMany cfg l (ts q.slot) q.asc q.from_ (if q.limit = 0 then store.length else q.limit)
+        (if q.slot.isTime then q.fromT else none) (if q.slot.isTime then q.toT else none)) q store := by
+  have hperm := hlok.perm hs
+  refine ⟨l, hperm, ?_, ?_⟩
+  · refine hlok.sorted.imp ?_
+    intro a b hab
+    have := (ordB_iff_sle q.slot q.asc a b).mp hab
+    unfold ord
+    cases hqa : q.asc <;> simpa [hqa] using this
+  · have hstore : store.length ≠ 0 := by
+      intro h0
+      have : store = [] := List.eq_nil_of_length_eq_zero h0
+      rw [this] at hne; simp at hne
+    have hlen : l.length ≤ store.length := by
+      rw [hperm.length_eq]; exact List.length_filter_le _ _
+    have hpc := page_correct cfg hb { q with limit := (if q.limit = 0 then store.length else q.limit) } l hlok.sorted
+    simp only [] at hpc
+    rw [hpc]
+    unfold page inRange
+    simp only []
+    by_cases hl0 : q.limit = 0
+    · simp only [hl0, if_true, hstore, if_false]
+      apply List.take_of_length_le
+      have h1 : (List.drop q.from_ (if q.slot.isTime = true then List.filter (inWindow { q with limit := store.length }) l else l)).length
+          ≤ l.length := by
+        rw [List.length_drop]
+        split
+        · have := List.length_filter_le (inWindow { q with limit := store.length }) l
+          omega
+        · omega
+      have hw : inWindow { q with limit := store.length } = inWindow q := rfl
+      rw [hw] at h1 ⊢
+      omega
+    · simp only [hl0, if_false]
+
+/-- **Partial theorem for value indexes (single-type swamps).**  With the one shared value pair that
+    every add and every content change drops (the current tree): in a swamp all of whose records
+    have content type `t` — every Set writes `t`, Increment only where `t` is int64 — and whose value
+    reads ask for `t` only, every read of the value index of `t`, after every such history, is a
+    correct page.  (Reads of the other index types, deletes, patches, shifts and reloads are free.) -/
+theorem value_single_type (cfg : Cfg) (hb : BsGood cfg) (hv : ValFacts cfg) (t : CT) (h : List Op)
+    (hok : ∀ op ∈ h, OpOk t op) (q : Query) (hq : q.slot = .value t) (res : List Rec)
+    (ha : answer cfg (run cfg h) q = some res) : CorrectPage res q (run cfg h).store := by
+  have hinv := singleInv_run hv h hok
+  generalize run cfg h = st at *
+  unfold answer at ha
+  cases hempty : st.store.isEmpty
+  · simp only [hempty, Bool.false_eq_true, if_false] at ha
+    have hq' : ∀ t', q.slot = .value t' → t' = t := by
+      intro t' h'; rw [hq] at h'; exact (Slot.value.inj h').symm
+    obtain ⟨hs, _, hp⟩ := singleInv_stepBuild hv st q hq' hinv
+    have hstore : (stepBuild cfg st q).store = st.store := by
+      simp only [stepBuild]; split <;> rfl
+    have hphys : phys cfg q.slot = .value .i64 := by rw [hq]; simp [phys, hv.shared]
+    have hinit : ((stepBuild cfg st q).pairs (.value .i64)).init = true := by
+      simp only [stepBuild, hempty, Bool.false_eq_true, if_false, setPair, hphys, if_true]
+      exact Pair.build_init cfg q.slot st.store _
+    obtain ⟨hasc, hdesc⟩ := hp hinit
+    rw [hstore] at hasc hdesc hs
+    rw [hphys] at ha
+    generalize hl : (if q.asc = true then ((stepBuild cfg st q).pairs (.value .i64)).asc
+        else ((stepBuild cfg st q).pairs (.value .i64)).desc) = l at ha
+    have hlok : ListOk q.slot q.asc st.store l := by
+      rw [hq]
+      cases hqa : q.asc
+      · simp only [hqa, Bool.false_eq_true, if_false] at hl; rw [← hl]; exact hdesc
+      · simp only [hqa, if_true] at hl; rw [← hl]; exact hasc
+    have hres : res = getMany cfg l (ts q.slot) q.asc q.from_ (if q.limit = 0 then st.store.length else q.limit)
+        (if q.slot.isTime then q.fromT else none) (if q.slot.isTime then q.toT else none) := by
+      cases ht : q.slot.isTime
+      · simp only [ht, Bool.false_eq_true, if_false, Option.some.injEq] at ha ⊢; exact ha.symm
+      · simp only [ht, if_true, Option.some.injEq] at ha ⊢; exact ha.symm
+    rw [hres]
+    exact correct_of_listOk cfg hb q st.store hempty hs l hlok
+  · simp [hempty] at ha
+
 /-! ### 4. decidable soundness of the facts -/
 
 /-- the type-change branch cannot meet a treasure that just became void -/
@@ -209,7 +300,7 @@ def slotGoodB (cfg : Cfg) : Slot → Bool
   | .updated => cfg.resortUpdated == .own && cfg.coldFilterUpdated && cfg.addGuardUpdated &&
       cfg.updRefreshUpdated && voidSafeB cfg
   | .expire => cfg.resortExpire == .own && cfg.coldFilterExpire && cfg.addGuardExpire &&
-      cfg.updRefreshExpireOnFlag && voidSafeB cfg
+      cfg.updRefreshExpireOnFlag && voidSafeB cfg && cfg.refileGuardExpire && cfg.patchExpiredReindexesAll
   | .value _ => !cfg.valueShared && cfg.resortValue == .own && cfg.coldFilterValueType && cfg.addGuardValueType &&
       cfg.updRefreshValue && voidSafeB cfg
 
@@ -228,7 +319,8 @@ theorem slotGood_of (cfg : Cfg) (s : Slot) (h : slotGoodB cfg s = true) : SlotGo
             resort := by simp [incrSort, h.1],
             exclusive := by intro s' hs'; cases s' <;> simp_all [phys],
             voidSafe := voidSafe_of cfg h.2,
-            stable := fun o rq => Or.inr (by simp [attrEq, mergeRec]) }
+            stable := fun o rq => Or.inr (by simp [attrEq, mergeRec]),
+            refile := fun _ => rfl, reindex := fun h => by cases h }
   | created =>
     simp only [slotGoodB, Bool.and_eq_true, beq_iff_eq] at h
     obtain ⟨⟨⟨⟨h1, h2⟩, h3⟩, h4⟩, h5⟩ := h
@@ -236,7 +328,8 @@ theorem slotGood_of (cfg : Cfg) (s : Slot) (h : slotGoodB cfg s = true) : SlotGo
             resort := by simp [incrSort, h1],
             exclusive := by intro s' hs'; cases s' <;> simp_all [phys],
             voidSafe := voidSafe_of cfg h5,
-            stable := fun o rq => Or.inl (by simp [refreshes, h4]) }
+            stable := fun o rq => Or.inl (by simp [refreshes, h4]),
+            refile := fun _ => by simp [refileGuard, addGuard, carries, h3], reindex := fun h => by cases h }
   | updated =>
     simp only [slotGoodB, Bool.and_eq_true, beq_iff_eq] at h
     obtain ⟨⟨⟨⟨h1, h2⟩, h3⟩, h4⟩, h5⟩ := h
@@ -244,19 +337,24 @@ theorem slotGood_of (cfg : Cfg) (s : Slot) (h : slotGoodB cfg s = true) : SlotGo
             resort := by simp [incrSort, h1],
             exclusive := by intro s' hs'; cases s' <;> simp_all [phys],
             voidSafe := voidSafe_of cfg h5,
-            stable := fun o rq => Or.inl (by simp [refreshes, h4]) }
+            stable := fun o rq => Or.inl (by simp [refreshes, h4]),
+            refile := fun _ => by simp [refileGuard, addGuard, carries, h3], reindex := fun h => by cases h }
   | expire =>
     simp only [slotGoodB, Bool.and_eq_true, beq_iff_eq] at h
-    obtain ⟨⟨⟨⟨h1, h2⟩, h3⟩, h4⟩, h5⟩ := h
+    obtain ⟨⟨⟨⟨⟨⟨h1, h2⟩, h3⟩, h4⟩, h5⟩, h6⟩, h7⟩ := h
     exact { phys := rfl, cold := fun _ => by simp [coldIncl, carries, h2], guard := fun _ => by simp [addGuard, carries, h3],
             resort := by simp [incrSort, h1],
             exclusive := by intro s' hs'; cases s' <;> simp_all [phys],
             voidSafe := voidSafe_of cfg h5,
             stable := by
               intro o rq
-              by_cases he : rq.expire = 0
-              · exact Or.inr (by simp [attrEq, mergeRec, he])
-              · exact Or.inl (by simp [refreshes, h4, mergeRec, he]) }
+              by_cases hc : rq.clearExpire = true
+              · exact Or.inl (by simp [refreshes, h4, mergeRec, hc])
+              · by_cases he : rq.expire = 0
+                · exact Or.inr (by simp [attrEq, mergeRec, he, hc])
+                · exact Or.inl (by simp [refreshes, h4, mergeRec, he])
+            refile := fun _ => by simp [refileGuard, carries, h6]
+            reindex := fun _ => h7 }
   | value t =>
     simp only [slotGoodB, Bool.and_eq_true, beq_iff_eq, Bool.not_eq_true'] at h
     obtain ⟨⟨⟨⟨⟨h0, h1⟩, h2⟩, h3⟩, h4⟩, h5⟩ := h
@@ -279,19 +377,64 @@ theorem slotGood_of (cfg : Cfg) (s : Slot) (h : slotGoodB cfg s = true) : SlotGo
                   · simp [hkeep]
                   · simp only [hkeep, Bool.false_eq_true, if_false]
                     exact ⟨hsame.2.symm, hsame.1.symm⟩
-              · exact Or.inl (by simp [refreshes, h4, hc]) }
+              · exact Or.inl (by simp [refreshes, h4, hc])
+            refile := fun _ => by simp [refileGuard, addGuard, carries, h3]
+            reindex := fun h => by cases h }
+
+/-- What `ShiftMatchingTreasures` (no filters) hands out and removes: after every history, the first
+    `HowMany` (0: all) records of the index in its order, inside `[from, to)` — a correct page with
+    offset 0 of the swamp's contents before the shift. -/
+theorem shift_correct (cfg : Cfg) (s : Slot) (hg : SlotGood cfg s) (h : List Op) (q : Query)
+    (hq : q.slot = s) (h0 : q.from_ = 0) (hne : (run cfg h).store.isEmpty = false) :
+    CorrectPage (matchList cfg (run cfg h) q) q (run cfg h).store := by
+  subst hq
+  obtain ⟨hs, hp⟩ := slotInv_run hg h
+  generalize run cfg h = st at *
+  have hpair : (stepBuild cfg st q).pairs (phys cfg q.slot) = (st.pairs q.slot).build cfg q.slot st.store := by
+    simp only [stepBuild, hne, Bool.false_eq_true, if_false, setPair, if_true, hg.phys]
+  have hok : PairOk q.slot st.store ((st.pairs q.slot).build cfg q.slot st.store) := hp.build hg hs
+  obtain ⟨hasc, hdesc⟩ := hok (Pair.build_init cfg q.slot st.store _)
+  unfold matchList
+  simp only []
+  rw [hpair]
+  generalize hl : (if q.asc = true then ((st.pairs q.slot).build cfg q.slot st.store).asc
+      else ((st.pairs q.slot).build cfg q.slot st.store).desc) = l
+  have hlok : ListOk q.slot q.asc st.store l := by
+    cases hqa : q.asc
+    · simp only [hqa, Bool.false_eq_true, if_false] at hl; rw [← hl]; exact hdesc
+    · simp only [hqa, if_true] at hl; rw [← hl]; exact hasc
+  refine ⟨l, hlok.perm hs, ?_, ?_⟩
+  · refine hlok.sorted.imp ?_
+    intro a b hab
+    have := (ordB_iff_sle q.slot q.asc a b).mp hab
+    unfold ord
+    cases hqa : q.asc <;> simpa [hqa] using this
+  · have hw : (fun r => inTimeRange (ts q.slot r) q.fromT q.toT) = inWindow q := by
+      funext r
+      unfold inTimeRange inWindow
+      cases q.fromT <;> cases q.toT <;> rfl
+    rw [hw]
+    simp only [page, inRange, h0, List.drop_zero]
+
+/-- …for every index type whose facts are sound -/
+theorem shift_partial (cfg : Cfg) (h : List Op) (q : Query) (hs : slotGoodB cfg q.slot = true)
+    (h0 : q.from_ = 0) (hne : (run cfg h).store.isEmpty = false) :
+    CorrectPage (matchList cfg (run cfg h) q) q (run cfg h).store :=
+  shift_correct cfg q.slot (slotGood_of cfg _ hs) h q rfl h0 hne
 
 /-- all facts sound -/
-def goodB (cfg : Cfg) : Bool :=
+def seqGoodB (cfg : Cfg) : Bool :=
   bsGoodB cfg && slotGoodB cfg .key && slotGoodB cfg .created && slotGoodB cfg .updated &&
   slotGoodB cfg .expire && slotGoodB cfg (.value .i64)
+
+def goodB (cfg : Cfg) : Bool := seqGoodB cfg && cfg.initialisedAfterFill
 
 /-- **Full theorem (repaired facts).**  If every change of a sort attribute re-files the record,
     incremental inserts re-sort with the beacon's own comparator, cold builds and inserts admit
     exactly the carriers, value indexes are per type, and the four search operators are `<`,
     then every index read after every history is a correct page. -/
-theorem holds_of_good (cfg : Cfg) (h : goodB cfg = true) : Holds cfg := by
-  simp only [goodB, Bool.and_eq_true] at h
+theorem holdsSeq_of_good (cfg : Cfg) (h : seqGoodB cfg = true) : HoldsSeq cfg := by
+  simp only [seqGoodB, Bool.and_eq_true] at h
   obtain ⟨⟨⟨⟨⟨hb, hk⟩, hc⟩, hu⟩, he⟩, hv⟩ := h
   intro hist q res ha
   have hsg : SlotGood cfg q.slot := by
@@ -302,6 +445,19 @@ theorem holds_of_good (cfg : Cfg) (h : goodB cfg = true) : Holds cfg := by
     | expire => exact slotGood_of cfg _ he
     | value t => exact slotGood_of cfg _ (by simpa [slotGoodB] using hv)
   exact slot_correct cfg (bsGood_of cfg hb) q.slot hsg hist q res rfl ha
+
+/-- with the flag published last, the second of two racing first readers is answered like a lone one -/
+theorem holdsRace_of (cfg : Cfg) (hs : HoldsSeq cfg) (hf : cfg.initialisedAfterFill = true) : HoldsRace cfg := by
+  intro hist q res ha
+  unfold answerSecond at ha
+  by_cases he : (run cfg hist).store.isEmpty = true
+  · simp [he] at ha
+  · simp only [he, Bool.false_eq_true, if_false, hf, Bool.or_true, if_true] at ha
+    exact hs hist q res ha
+
+theorem holds_of_good (cfg : Cfg) (h : goodB cfg = true) : Holds cfg := by
+  simp only [goodB, Bool.and_eq_true] at h
+  exact ⟨holdsSeq_of_good cfg h.1, holdsRace_of cfg (holdsSeq_of_good cfg h.1) h.2⟩
 
 /-- **Partial theorem.**  Whatever the other facts are: the index types whose own facts are sound
     are always read correctly, for every history (including histories that break other indexes). -/
@@ -374,7 +530,7 @@ def witnessFails (cfg : Cfg) (h : List Op) (q : Query) : Bool :=
 
 /-- a failing witness refutes the property for those facts — whatever the facts are -/
 theorem refutes_of_witness (cfg : Cfg) (h : List Op) (q : Query)
-    (hw : witnessFails cfg h q = true) : ¬ Holds cfg := by
+    (hw : witnessFails cfg h q = true) : ¬ HoldsSeq cfg := by
   intro hh
   unfold witnessFails at hw
   simp only [Bool.and_eq_true, beq_iff_eq] at hw
@@ -416,18 +572,55 @@ def witnesses : List (String × List Op × Query) := [
   ("C07-cold-build-no-zero-filter", [setOp "k1" .i64 1 0 0 0, setOp "k2" .i64 2 2 2 2], fullRead .updated true),
   ("C07-cold-build-no-zero-filter", [setOp "k1" .i64 1 0 0 0, setOp "k2" .i64 2 2 2 2], fullRead .expire true),
   ("C07-void-dropped-from-key-index",
-    [setOp "k1" .i64 1 0 0 0, .read (fullRead .key true), setOp "k1" .void 0 0 0 0], fullRead .key true)]
+    [setOp "k1" .i64 1 0 0 0, .read (fullRead .key true), setOp "k1" .void 0 0 0 0], fullRead .key true),
+  -- a patch clears the expiry of a record filed in the built expiration index
+  ("C07-expire-cleared-refiled",
+    [setOp "k1" .bytes 0 0 0 3, setOp "k2" .bytes 0 0 0 5, .read (fullRead .expire true), .patch "k1" .clear],
+    fullRead .expire true),
+  -- after a reload (flags clear) an ops-only PatchExpired leaves its selection out of the ascending index
+  ("C07-patch-expired-partial-reindex",
+    [setOp "k1" .bytes 0 0 0 3, setOp "k2" .bytes 0 0 0 5, .reload, .patchExpired .keep],
+    fullRead .expire true)]
 
 /-- the findings whose witness fails under `cfg` -/
-def findings (cfg : Cfg) : List String :=
+def seqFindings (cfg : Cfg) : List String :=
   ((witnesses.filter (fun w => witnessFails cfg w.2.1 w.2.2)).map (·.1)).eraseDups
 
-theorem refutes_of_findings (cfg : Cfg) (h : findings cfg ≠ []) : ¬ Holds cfg := by
-  unfold findings at h
+theorem refutes_of_seqFindings (cfg : Cfg) (h : seqFindings cfg ≠ []) : ¬ HoldsSeq cfg := by
+  unfold seqFindings at h
   have : witnesses.filter (fun w => witnessFails cfg w.2.1 w.2.2) ≠ [] := by
     intro he; rw [he] at h; exact h (by simp)
   obtain ⟨w, hw⟩ := List.exists_mem_of_ne_nil _ this
   exact refutes_of_witness cfg w.2.1 w.2.2 (List.mem_filter.mp hw).2
+
+/-- the race witness: one record; two first readers of the key index, ascending -/
+def raceHistory : List Op := [setOp "k1" .i64 1 0 0 0]
+
+def raceFails (cfg : Cfg) : Bool :=
+  match answerSecond cfg (run cfg raceHistory) (fullRead .key true) with
+  | some res => !unpagedOk (fullRead .key true) res (run cfg raceHistory).store
+  | none => false
+
+theorem refutes_of_race (cfg : Cfg) (h : raceFails cfg = true) : ¬ HoldsRace cfg := by
+  intro hh
+  unfold raceFails at h
+  cases ha : answerSecond cfg (run cfg raceHistory) (fullRead .key true) with
+  | none => simp [ha] at h
+  | some res =>
+    have := unpagedOk_of_correct (fullRead .key true) res _ rfl rfl (hh raceHistory (fullRead .key true) res ha)
+    simp [ha, this] at h
+
+def findings (cfg : Cfg) : List String :=
+  seqFindings cfg ++ (if raceFails cfg then ["C07-first-readers-race"] else [])
+
+theorem refutes_of_findings (cfg : Cfg) (h : findings cfg ≠ []) : ¬ Holds cfg := by
+  intro hh
+  unfold findings at h
+  by_cases hs : seqFindings cfg = []
+  · by_cases hr : raceFails cfg = true
+    · exact refutes_of_race cfg hr hh.2
+    · simp [hs, hr] at h
+  · exact refutes_of_seqFindings cfg hs hh.1
 
 /-- the facts of the tree before the four `fix:` commits on the index maintenance -/
 def beforeFix : Cfg := {
@@ -436,16 +629,19 @@ def beforeFix : Cfg := {
   coldFilterCreated := true, coldFilterUpdated := true, coldFilterExpire := true, coldFilterValueType := false,
   addGuardCreated := true, addGuardUpdated := true, addGuardExpire := true, addGuardValueType := false,
   updRefreshCreated := false, updRefreshUpdated := false, updRefreshValue := false, updRefreshExpireOnFlag := true,
-  typeChangeDetected := false, valueShared := true, flagsSticky := true, setVoidClearsTyped := false }
+  typeChangeDetected := false, valueShared := true, flagsSticky := true, setVoidClearsTyped := false,
+  initialisedAfterFill := false, refileGuardExpire := true, patchExpiredReindexesAll := true }
 
 /-- the facts of the tree as of this writing: `SaveFunction` re-files a treasure in the built
     creation-time or update-time index when that timestamp changes, and any add to / content change in
-    a built value index drops it (the next read rebuilds it with the requested type's comparator) -/
+    a built value index drops it (the next read rebuilds it with the requested type's comparator);
+    `buildBeacon` publishes `initialized` last, under a build lock -/
 def current : Cfg := { beforeFix with
-  setVoidClearsTyped := true, resortValue := .invalidate, updRefreshCreated := true, updRefreshUpdated := true, updRefreshValue := true }
+  initialisedAfterFill := true, setVoidClearsTyped := true, resortValue := .invalidate, updRefreshCreated := true, updRefreshUpdated := true, updRefreshValue := true }
 
 /-- the repaired facts -/
 def repaired : Cfg := { beforeFix with
+  initialisedAfterFill := true,
   resortValue := .own, coldFilterValueType := true, addGuardValueType := true,
   updRefreshCreated := true, updRefreshUpdated := true, updRefreshValue := true, valueShared := false }
 
@@ -479,7 +675,13 @@ theorem witness_value_mixed_types :
 
 theorem findings_beforeFix : findings beforeFix =
     ["C07-updated-update-stale", "C07-created-update-stale", "C07-value-update-stale",
-     "C07-value-insert-wrong-comparator", "C07-value-index-mixed-types"] := by decide
+     "C07-value-insert-wrong-comparator", "C07-value-index-mixed-types", "C07-first-readers-race"] := by decide
+
+/-- Closed witness of the race: the key index of a one-record swamp is not built; the first reader
+    has raised `initialized` and not filled the slice yet; the second reader is answered `[]`. -/
+theorem witness_first_readers_race :
+    answerSecond beforeFix (run beforeFix raceHistory) (fullRead .key true) = some [] ∧
+    (answer beforeFix (run beforeFix raceHistory) (fullRead .key true)).map (·.map (·.key)) = some ["k1"] := by decide
 
 /-- after the fixes only the shared, unfiltered value index remains -/
 theorem findings_current : findings current = ["C07-value-index-mixed-types"] := by decide
@@ -493,6 +695,27 @@ example : findings repaired = [] := by decide
 example : findings { repaired with bsAscFrom := .le } = ["C07-window-bounds-operator"] := by decide
 example : findings { repaired with bsDescTo := .le } = ["C07-window-bounds-operator"] := by decide
 example : findings { repaired with coldFilterExpire := false } = ["C07-cold-build-no-zero-filter"] := by decide
+example : findings { repaired with refileGuardExpire := false } = ["C07-expire-cleared-refiled"] := by decide
+example : findings { repaired with patchExpiredReindexesAll := false } = ["C07-patch-expired-partial-reindex"] := by decide
+/-- Closed witness: with the re-add unguarded, clearing `k1`'s expiry by a patch leaves it in the
+    built expiration index, under key 0. -/
+theorem witness_expire_cleared_refiled :
+    (answer { current with refileGuardExpire := false }
+      (run { current with refileGuardExpire := false }
+        [setOp "k1" .bytes 0 0 0 3, setOp "k2" .bytes 0 0 0 5, .read (fullRead .expire true), .patch "k1" .clear])
+      (fullRead .expire true)).map (·.map (fun r => (r.key, r.expire))) = some [("k1", 0), ("k2", 5)] := by decide
+/-- Closed witness: re-indexing only what was not patched loses, after a reload, every patched record
+    from the ascending expiration index (the descending one still has them). -/
+theorem witness_patch_expired_partial_reindex :
+    let cfg := { current with patchExpiredReindexesAll := false }
+    let h := [setOp "k1" .bytes 0 0 0 3, setOp "k2" .bytes 0 0 0 5, .reload, .patchExpired .keep]
+    (answer cfg (run cfg h) (fullRead .expire true)).map (·.map (·.key)) = some [] ∧
+    (answer cfg (run cfg h) (fullRead .expire false)).map (·.map (·.key)) = some ["k2", "k1"] := by decide
+/-- the same history without the reload is harmless (the sticky flag makes `SaveFunction` re-file) -/
+example :
+    let cfg := { current with patchExpiredReindexesAll := false }
+    let h := [setOp "k1" .bytes 0 0 0 3, setOp "k2" .bytes 0 0 0 5, .patchExpired .keep]
+    (answer cfg (run cfg h) (fullRead .expire true)).map (·.map (·.key)) = some ["k1", "k2"] := by decide
 theorem holds_repaired : Holds repaired := holds_of_good repaired (by decide)
 /-- …also when the `SetContent…` setters are repaired to raise `contentTypeChanged` (the first
     `SaveFunction` branch becomes reachable): a Set never turns typed content into void -/
@@ -518,6 +741,25 @@ theorem holds_current_nonvalue :
   intro hist q res hs ha
   refine holds_partial current (by decide) hist q res ?_ ha
   rcases hs with h | h | h | h <;> rw [h] <;> decide
+
+def valFactsB (cfg : Cfg) : Bool :=
+  cfg.valueShared && cfg.resortValue == .invalidate && !cfg.addGuardValueType && cfg.updRefreshValue
+
+theorem valFacts_of (cfg : Cfg) (h : valFactsB cfg = true) : ValFacts cfg := by
+  simp only [valFactsB, Bool.and_eq_true, beq_iff_eq, Bool.not_eq_true'] at h
+  exact ⟨h.1.1.1, h.1.1.2, h.1.2, h.2⟩
+
+/-- **What holds on the current tree for value indexes**: single-type swamps. -/
+theorem holds_current_single_type (t : CT) (h : List Op) (hok : ∀ op ∈ h, OpOk t op) (q : Query) (hq : q.slot = .value t)
+    (res : List Rec) (ha : answer current (run current h) q = some res) : CorrectPage res q (run current h).store :=
+  value_single_type current (bsGood_of current (by decide)) (valFacts_of current (by decide)) t h hok q hq res ha
+
+/-- non-vacuity: a float swamp with an update and an insert after the index was built is read sorted;
+    the same reads with one string record in the swamp are not (the recorded finding) -/
+example :
+    (answer current (run current [setOp "k1" .f64 1 0 0 0, setOp "k2" .f64 3 0 0 0, .read (fullRead (.value .f64) true),
+        setOp "k3" .f64 2 0 0 0, setOp "k1" .f64 4 0 0 0]) (fullRead (.value .f64) true)).map (·.map (·.key))
+      = some ["k3", "k2", "k1"] := by decide
 
 /-- non-vacuity of `bounds_correct`: a sorted slice with duplicates, window [3,7) -/
 example : findBounds current true [1, 3, 3, 5, 7, 9] (some 3) (some 7) = (1, 3) := by decide
@@ -571,6 +813,15 @@ structure Facts where
   valueShared : Tri
   flagsSticky : Tri
   setVoidClearsTyped : Tri
+  /-- `buildBeacon` publishes the `initialized` flag after filling and sorting, under a build lock -/
+  initialisedAfterFill : Tri
+  /-- the expiration branch of `SaveFunction` re-adds only a non-zero expiry -/
+  refileGuardExpire : Tri
+  /-- `PatchExpired` re-indexes its whole selection -/
+  patchExpiredReindexesAll : Tri
+  /-- `PatchExpired`, `SelectExpiredForPatchWithCap`, `ReindexExpiration`, `applyPatchMeta`,
+      `CloneAndDeleteMatchingTreasures` and `beacon.ShiftMatching` have the modelled shape -/
+  claimPathsStandard : Tri
   /-- `GetBeacon` (used by ShiftMatching, C11) serves all eleven value index types / builds the
       requested type: recorded, not used by the index-read path -/
   getBeaconServesAllValueTypes : Tri
@@ -598,7 +849,8 @@ def cfgOf (f : Facts) : Cfg := {
   updRefreshCreated := f.updRefreshCreated.isYes, updRefreshUpdated := f.updRefreshUpdated.isYes,
   updRefreshValue := f.updRefreshValue.isYes, updRefreshExpireOnFlag := f.updRefreshExpireOnFlag.isYes,
   typeChangeDetected := f.typeChangeDetected.isYes, valueShared := f.valueShared.isYes, flagsSticky := f.flagsSticky.isYes,
-  setVoidClearsTyped := f.setVoidClearsTyped.isYes }
+  setVoidClearsTyped := f.setVoidClearsTyped.isYes, initialisedAfterFill := f.initialisedAfterFill.isYes,
+  refileGuardExpire := f.refileGuardExpire.isYes, patchExpiredReindexesAll := f.patchExpiredReindexesAll.isYes }
 
 /-- a fact the model depends on was not recognised in the source -/
 def unknownFact (f : Facts) : Option String :=
@@ -614,8 +866,11 @@ def unknownFact (f : Facts) : Option String :=
   if [f.coldFilterCreated, f.coldFilterUpdated, f.coldFilterExpire, f.coldFilterValueType,
       f.addGuardCreated, f.addGuardUpdated, f.addGuardExpire, f.addGuardValueType,
       f.updRefreshCreated, f.updRefreshUpdated, f.updRefreshValue, f.updRefreshExpireOnFlag,
-      f.typeChangeDetected, f.valueShared, f.flagsSticky, f.setVoidClearsTyped].any (· == .unknown) then
+      f.typeChangeDetected, f.valueShared, f.flagsSticky, f.setVoidClearsTyped, f.initialisedAfterFill,
+      f.refileGuardExpire].any (· == .unknown) then
     some "treasuresForBeacon / addTreasureToBeacons / SaveFunction / treasure flags" else
+  if f.patchExpiredReindexesAll == .unknown || !f.claimPathsStandard.isYes then
+    some "PatchExpired / ReindexExpiration / ShiftMatching" else
   none
 
 def classify (f : Facts) : Verdict :=
@@ -628,7 +883,11 @@ def classify (f : Facts) : Verdict :=
 
 /-- what is still proved when the property is violated: the index types with sound facts -/
 def Partial (cfg : Cfg) : Prop :=
-  bsGoodB cfg = true → HoldsFor cfg (fun s => slotGoodB cfg s = true)
+  bsGoodB cfg = true →
+    HoldsFor cfg (fun s => slotGoodB cfg s = true) ∧
+    -- value indexes: single-type swamps, when the shared pair is dropped by every add / content change
+    (valFactsB cfg = true → ∀ (t : CT) (h : List Op), (∀ op ∈ h, OpOk t op) → ∀ (q : Query), q.slot = .value t →
+      ∀ res, answer cfg (run cfg h) q = some res → CorrectPage res q (run cfg h).store)
 
 theorem classify_sound (f : Facts) : (classify f).Sound (Holds (cfgOf f)) (Partial (cfgOf f)) := by
   unfold classify
@@ -638,7 +897,8 @@ theorem classify_sound (f : Facts) : (classify f).Sound (Holds (cfgOf f)) (Parti
     · rename_i hg; exact holds_of_good _ hg
     · split
       · rename_i hf
-        refine ⟨refutes_of_findings _ ?_, fun hb => holds_partial _ hb⟩
+        refine ⟨refutes_of_findings _ ?_, fun hb => ⟨holds_partial _ hb, fun hv t h hok q hq res ha =>
+          value_single_type _ (bsGood_of _ hb) (valFacts_of _ hv) t h hok q hq res ha⟩⟩
         intro he; rw [he] at hf; simp at hf
       · trivial
 
